@@ -123,8 +123,18 @@ func (value Value) Compare(other Value) int {
 			return -1
 		} else if value.Float > other.Float {
 			return 1
-		} else {
+		} else if value.Float == other.Float {
 			return 0
+		}
+		// At least one of the values is NaN. NaN sorts before every other float and is equal to itself,
+		// so that the ordering stays a total preorder (NaN used to compare equal to everything).
+		valueNaN, otherNaN := math.IsNaN(value.Float), math.IsNaN(other.Float)
+		if valueNaN && otherNaN {
+			return 0
+		} else if valueNaN {
+			return -1
+		} else {
+			return 1
 		}
 
 	case TypeIDBoolean:
@@ -260,7 +270,15 @@ func (value Value) hash(hash uint64) uint64 {
 		hash = fnv1a.AddUint64(hash, uint64(value.Int))
 
 	case TypeIDFloat:
-		hash = fnv1a.AddUint64(hash, math.Float64bits(value.Float))
+		floatValue := value.Float
+		if floatValue == 0 {
+			// -0 and +0 compare equal, so they have to hash equally.
+			floatValue = 0
+		} else if math.IsNaN(floatValue) {
+			// All NaNs compare equal, whatever their payload.
+			floatValue = math.NaN()
+		}
+		hash = fnv1a.AddUint64(hash, math.Float64bits(floatValue))
 
 	case TypeIDBoolean:
 		if value.Boolean {
